@@ -262,7 +262,7 @@ def date_parts(draw):
 
 @st.composite
 def time_parts(draw):
-    cls = draw(st.sampled_from(["plain", "plain", "fraction", "fraction-1-digit", "midnight-24", "max", "zero"]))
+    cls = draw(st.sampled_from(["plain", "plain", "fraction", "fraction-1-digit", "fraction-over-6-digits", "midnight-24", "max", "zero"]))
     if cls == "midnight-24":
         return "24:00:00", cls
     if cls == "max":
@@ -274,6 +274,9 @@ def time_parts(draw):
         s += "." + draw(_digits(1, 6))
     if cls == "fraction-1-digit":
         s += "." + draw(st.sampled_from(["5", "0", "9"]))
+    if cls == "fraction-over-6-digits":
+        # any number of fraction digits is valid; those written here denote a whole number of microseconds
+        s += "." + draw(_digits(6, 6)) + "0" * draw(st.integers(1, 4))
     return s, cls
 
 
